@@ -171,6 +171,17 @@ func solveAll(files []string, obls []*Obligation, timeoutS int, workers int) []s
 			defer wg.Done()
 			for j := range jobs {
 				r := portfolio(j.file, timeoutS, which)
+				if r.status != "unsat" && r.status != "sat" {
+					// second attempt with the other (equivalent) definition of
+					// the machine-arithmetic macros
+					if fb := variantB(j.file); fb != "" {
+						if r2 := portfolio(fb, timeoutS, which); r2.status == "unsat" || r2.status == "sat" {
+							r2.solver += "/modform"
+							r2.seconds += r.seconds
+							r = r2
+						}
+					}
+				}
 				mu.Lock()
 				res[j.idx] = r
 				mu.Unlock()
